@@ -13,5 +13,5 @@ SmallInputs == {InStart} \cup {InMsg(m) : m \in SmallMsgs(sm.h)} \cup {InTimeout
 
 SmallNext ==
   \/ \E in \in SmallInputs : Input(in)
-  \/ Effect \/ Crash \/ Recover \/ ReplayNext \/ ReplayDone
+  \/ Effect \/ Crash \/ Stop \/ Recover \/ ReplayNext \/ ReplayDone
 =============================================================================
